@@ -234,8 +234,9 @@ def ldap_schema(ctx, report):
     ldap = evaluate_messages(ctx, load_spec('opp.json')['constants']['starttls_oid'])
     # the LDAP message parsers: what they accept and refuse is decided by evaluation (C09.R4) when that is possible; the
     # table of explicit rejections covers them otherwise, and the other protocols always
-    rejections.check(ctx, report, 'C09.R8', 'opp', skip=(lambda construct: ldap['evaluated'] and 'tls/ldap.py:LDAPExtended' in construct
-                                                          or ldap['evaluated'] and construct.endswith('._parse_protocol_op')))
+    from ..ldapbridge import evaluate as evaluate_bridge
+    ldap_all = ldap['evaluated'] and evaluate_bridge(ctx)['evaluated']
+    rejections.check(ctx, report, 'C09.R8', 'opp', skip=(lambda construct: ldap_all and 'tls/ldap.py:LDAP' in construct))
     null_terminated(ctx, report)
     report.rule('C09.R6', 'asn1crypto schema tables equal RFC 4511')
     spec = load_spec('opp.json')['ldap']
